@@ -3,11 +3,14 @@ package commitlog
 import (
 	"errors"
 	"hash/crc32"
+	"math"
 
 	client "github.com/liftbridge-io/liftbridge-api/v2/go"
 )
 
 var crc32cTable = crc32.MakeTable(crc32.Castagnoli)
+
+var errTooManyHeaders = errors.New("too many headers")
 
 // Message is the object that gets serialized and written to the log.
 type Message struct {
@@ -29,6 +32,10 @@ type Message struct {
 
 // Encode the Message into the packetEncoder.
 func (m *Message) Encode(e packetEncoder) error {
+	if len(m.Headers) > math.MaxUint16 {
+		// The header count is stored in 16 bits.
+		return errTooManyHeaders
+	}
 	e.Push(&crcField{})
 	e.PutInt8(m.MagicByte)
 	e.PutInt8(m.Attributes)
